@@ -37,41 +37,60 @@ Definition vsum (d : nat) (l : list vec) : vec := fold_left vadd l (vzero d).
 (* ------------------------------------------------------------------------------------ *)
 (* IEEE-754 binary64 arithmetic on the values the code computes thresholds with
    (resourceThreshold: int64(float64(pct) * 0.01 * float64(cap)); calcAverageResourceUsagePercent).
-   A float is a dyadic m * 2^e; every operation computes the exact rational result and rounds
-   it to 53 significant bits, ties to even. Subnormals / overflow are out of range here. *)
+   A float is a dyadic m * 2^e with |m| < 2^53 (not necessarily normalised); every operation
+   computes the exact result and rounds it to 53 significant bits, ties to even.
+   Subnormals / overflow are out of range here. *)
 Notation fl := (Z * Z)%type.
 
-Definition scaled (n d e : Z) : Z * Z * Z :=      (* quotient, remainder, divisor of n / (d*2^e) *)
-  if 0 <=? e then let D := d * 2 ^ e in (n / D, n mod D, D)
-  else let N := n * 2 ^ (- e) in (N / d, N mod d, d).
+(* round the dyadic m * 2^e to 53 significant bits *)
+Definition norm53 (m e : Z) : fl :=
+  if m =? 0 then (0, 0)
+  else
+    let a := Z.abs m in
+    let k := Z.log2 a - 52 in
+    if k <=? 0 then (m, e)
+    else
+      let q := Z.shiftr a k in
+      let r := a - Z.shiftl q k in
+      let half := Z.shiftl 1 (k - 1) in
+      let up := (half <? r) || ((half =? r) && Z.odd q) in
+      let q' := if up then q + 1 else q in
+      ((if m <? 0 then - q' else q'), e + k).
 
-Definition rnd_pos (n d : Z) : fl :=              (* n > 0, d > 0 *)
-  let e0 := Z.log2 n - Z.log2 d - 52 in
-  let '(q0, _, _) := scaled n d e0 in
-  let e := if q0 <? 2 ^ 52 then e0 - 1 else e0 in
-  let '(q, r, D) := scaled n d e in
+(* round the rational n / d (n > 0, d > 0) *)
+Definition rnd_pos (n d : Z) : fl :=
+  let s0 := 52 + Z.log2 d - Z.log2 n in
+  (* n * 2^s0 / d lies in (2^51, 2^53); one more bit if it is below 2^52 *)
+  let lt := if 0 <=? s0 then Z.shiftl n s0 <? Z.shiftl d 52
+            else n <? Z.shiftl d (52 - s0) in
+  let s := if lt then s0 + 1 else s0 in
+  let N := if 0 <=? s then Z.shiftl n s else n in
+  let D := if 0 <=? s then d else Z.shiftl d (- s) in
+  let '(q, r) := Z.div_eucl N D in
   let up := (D <? 2 * r) || ((D =? 2 * r) && Z.odd q) in
-  (if up then q + 1 else q, e).
+  (if up then q + 1 else q, - s).
 
-Definition rnd (n d : Z) : fl :=                  (* d > 0 *)
-  if n =? 0 then (0, 0)
-  else if n <? 0 then let '(m, e) := rnd_pos (- n) d in (- m, e)
-  else rnd_pos n d.
-
-Definition fnum (a : fl) : Z := if 0 <=? snd a then fst a * 2 ^ snd a else fst a.
-Definition fden (a : fl) : Z := if 0 <=? snd a then 1 else 2 ^ (- snd a).
-
-Definition f_of_int (z : Z) : fl := rnd z 1.
-Definition fmul (a b : fl) : fl := rnd (fnum a * fnum b) (fden a * fden b).
-Definition fadd (a b : fl) : fl := rnd (fnum a * fden b + fnum b * fden a) (fden a * fden b).
-Definition fsub (a b : fl) : fl := rnd (fnum a * fden b - fnum b * fden a) (fden a * fden b).
+Definition f_of_int (z : Z) : fl := norm53 z 0.
+Definition fmul (a b : fl) : fl := norm53 (fst a * fst b) (snd a + snd b).
+(* exact sum / difference on a common exponent *)
+Definition falign (a b : fl) : Z * Z * Z :=
+  let e := Z.min (snd a) (snd b) in
+  (Z.shiftl (fst a) (snd a - e), Z.shiftl (fst b) (snd b - e), e).
+Definition fadd (a b : fl) : fl := let '(x, y, e) := falign a b in norm53 (x + y) e.
+Definition fsub (a b : fl) : fl := let '(x, y, e) := falign a b in norm53 (x - y) e.
 Definition fdiv (a b : fl) : fl :=
-  let n := fnum a * fden b in let d := fden a * fnum b in
-  if d =? 0 then (0, 0) else if d <? 0 then rnd (- n) (- d) else rnd n d.
-Definition fltb (a b : fl) : bool := fnum a * fden b <? fnum b * fden a.
-Definition ftrunc (a : fl) : Z := Z.quot (fnum a) (fden a).     (* Go int64(x) *)
+  if (fst a =? 0) || (fst b =? 0) then (0, 0)
+  else
+    let '(q, e) := rnd_pos (Z.abs (fst a)) (Z.abs (fst b)) in
+    ((if (fst a <? 0) && (0 <? fst b) || (0 <? fst a) && (fst b <? 0) then - q else q),
+     e + snd a - snd b).
+Definition fltb (a b : fl) : bool := let '(x, y, _) := falign a b in x <? y.
+(* Go int64(x): truncation toward zero *)
+Definition ftrunc (a : fl) : Z :=
+  if 0 <=? snd a then Z.shiftl (fst a) (snd a)
+  else if fst a <? 0 then - Z.shiftr (- fst a) (- snd a) else Z.shiftr (fst a) (- snd a).
 
-Definition f001 : fl := rnd 1 100.                 (* the float64 constant 0.01 *)
+Definition f001 : fl := rnd_pos 1 100.             (* the float64 constant 0.01 *)
 Definition f100 : fl := f_of_int 100.
 Definition f0 : fl := (0, 0).
 
